@@ -104,6 +104,32 @@ func TestC12(t *testing.T) {
 			}
 			vals = append(vals, &c12Value{v: v, desc: shape + " " + zoo.Describe(v, 160)})
 		}
+		// values that take the chunked string / binary paths and the growing-list path
+		if rapid.IntRange(0, 2).Draw(rt, "withLarge") == 0 {
+			n := rapid.IntRange(2049, 5000).Draw(rt, "largeLen")
+			big := make([]int64, 1100)
+			for i := range big {
+				big[i] = int64(i) << 20
+			}
+			for _, v := range []interface{}{
+				&zoo.StrCarrier{S: mkString(rapid.IntRange(0, 4).Draw(rt, "largeClass"), n, 0, 0, uint64(n)), L: []string{mkString(0, n+1, 0, 0, 7)}},
+				&zoo.BinCarrier{B: mkBytes(2*n, uint64(n)), L: [][]byte{mkBytes(n+4096, 5)}},
+				&zoo.SlI64{L: big},
+			} {
+				t1, n1 := hessian.ExtractTypeNameMap(v)
+				for k, x := range t1 {
+					if _, ok := tm[k]; !ok {
+						tm[k] = x
+					}
+				}
+				for k, x := range n1 {
+					if _, ok := nm[k]; !ok {
+						nm[k] = x
+					}
+				}
+				vals = append(vals, &c12Value{v: v, desc: fmt.Sprintf("large %T (%d)", v, n)})
+			}
+		}
 		if len(vals) < 2 {
 			rt.Skip("too few values")
 		}
@@ -240,4 +266,91 @@ func TestC12(t *testing.T) {
 			return map[string]interface{}{"goroutines": n, "instances": mode, "ops_per_goroutine": ops, "values": descs}
 		})
 	})
+	if t.Failed() {
+		return
+	}
+	// ---------------- cold start: a struct type nobody in this process has encoded or
+	// decoded before is used by N goroutines at the same moment (lazily filled shared
+	// caches are invisible once warm). Oracle: plain round trip of each goroutine's result.
+	rng := seedFor("C12cold")
+	rounds := rec.EnvInt("VERIF_C12_COLD", 40)
+	kinds := []reflect.Type{reflect.TypeOf(int32(0)), reflect.TypeOf(""), reflect.TypeOf(float64(0)), reflect.TypeOf(true), reflect.TypeOf(int64(0)), reflect.TypeOf([]int32{}), reflect.TypeOf(uint16(0))}
+	for round := 0; round < rounds; round++ {
+		nf := 2 + int(rng.next()%10)
+		fields := make([]reflect.StructField, nf)
+		for i := range fields {
+			fields[i] = reflect.StructField{Name: fmt.Sprintf("F%d_%d_%d", round, i, rng.next()%1000), Type: kinds[rng.next()%uint64(len(kinds))]}
+		}
+		typ := reflect.StructOf(fields)
+		val := reflect.New(typ)
+		for i := 0; i < nf; i++ {
+			f := val.Elem().Field(i)
+			switch f.Kind() {
+			case reflect.Int32, reflect.Int64:
+				f.SetInt(int64(int32(rng.next())))
+			case reflect.Uint16:
+				f.SetUint(rng.next() % 65536)
+			case reflect.String:
+				f.SetString(fmt.Sprintf("s%d", rng.next()%100000))
+			case reflect.Float64:
+				f.SetFloat(float64(rng.next()%1000) / 8)
+			case reflect.Bool:
+				f.SetBool(rng.next()%2 == 0)
+			case reflect.Slice:
+				f.Set(reflect.ValueOf([]int32{int32(rng.next() % 100), 2, 3}))
+			}
+		}
+		v := val.Interface()
+		nm := map[string]string{"": "dyn.Cold", "[]int32": "[int"}
+		tm := map[string]reflect.Type{"dyn.Cold": typ, "[int": reflect.TypeOf([]int32{})}
+		n := []int{2, 4, 8, 16}[rng.next()%4]
+		var ready, go_ int32
+		var wg sync.WaitGroup
+		errs := make([]string, n)
+		outs := make([][]byte, n)
+		for g := 0; g < n; g++ {
+			wg.Add(1)
+			go func(g int) {
+				defer wg.Done()
+				defer func() {
+					if p := recover(); p != nil {
+						errs[g] = fmt.Sprintf("panic: %v", p)
+					}
+				}()
+				atomic.AddInt32(&ready, 1)
+				for atomic.LoadInt32(&go_) == 0 { // spin barrier: start within nanoseconds of each other
+				}
+				b, err := hessian.NewEncoder(nil, nm).Encode(v)
+				if err != nil {
+					errs[g] = "encode: " + err.Error()
+					return
+				}
+				outs[g] = b
+				o, err := hessian.NewDecoder(nil, tm).Decode(b)
+				if err != nil {
+					errs[g] = "decode: " + err.Error()
+					return
+				}
+				if !reflect.DeepEqual(o, v) {
+					errs[g] = fmt.Sprintf("first concurrent use of a struct type: decoded %+v, want %+v", o, v)
+				}
+			}(g)
+		}
+		for atomic.LoadInt32(&ready) < int32(n) {
+			runtime.Gosched()
+		}
+		atomic.StoreInt32(&go_, 1)
+		wg.Wait()
+		r.EvalN(int64(n))
+		r.NonTrivial(av.Hash(fmt.Sprint("cold", round, typ.String())))
+		r.Label("cold-start:first-concurrent-use-of-a-type")
+		for g := 0; g < n; g++ {
+			if errs[g] == "" && !bytes.Equal(outs[g], outs[0]) {
+				errs[g] = "first concurrent use of a struct type: two goroutines encoded the same value differently"
+			}
+			if errs[g] != "" {
+				directFail(t, "C12", map[string]interface{}{"phase": "cold-start", "goroutines": n, "type": typ.String()}, "C12 %d goroutines, first use of %v: %s", n, typ, errs[g])
+			}
+		}
+	}
 }
